@@ -193,6 +193,10 @@ static std::vector<Op> genProgram(hz::Rng& r, const Pool& p, bool cancelCase, bo
     const size_t n = isCs ? p.cs.size() : p.m.size();
     o.a = r.below(n); o.b = r.below(n); o.c = r.below(8); o.d = r.below(nThreads);
     o.v = gvec(r) * 0.5;
+    // a third of the DERIVEs: the union of a pool LEAF, used as it is (pending transform not yet realised, frame transform = identity),
+    // with a far-away operand: bounding boxes are disjoint, so the union takes the CsgLeafNode::Compose path on the shared leaf object
+    // while other threads make their first queries on that very leaf
+    if (o.code == DERIVE && r.below(3) == 0) { o.a = r.below(p.nPrim); o.c = 0; o.v = vec3(40, 40, 40) + gvec(r); }
     if (o.code == RESERVE) o.c = r.below(6);
     if (o.code == DERIVE_CTX || o.code == STATUS_CTX) o.c = cancelCase ? (int)r.below(12) : 0;   // countdown to Cancel() (0: never)
     prog.push_back(o);
